@@ -21,6 +21,8 @@ func TestChild(t *testing.T) {
 	switch plan.Rig {
 	case "R":
 		RunRigR(t, plan)
+	case "ST":
+		RunRigST(t, plan)
 	default:
 		fmt.Fprintln(os.Stderr, "verif: unknown rig", plan.Rig)
 		os.Exit(2)
